@@ -19,6 +19,10 @@ OBLIGATIONS = [
     "NanoVerif.C14.runs_concat",
     "NanoVerif.C14.runs_consecutive",
     "NanoVerif.C14.offsets_contiguous",
+    "NanoVerif.TrProofs.nudge_eq",
+    "NanoVerif.TrProofs.ppem_eq",
+    "NanoVerif.TrProofs.width_in_pixels_eq",
+    "NanoVerif.TrProofs.bitmap_metrics_eq",
 ]
 DESIGN_REF = "DESIGN.md §5 C14"
 LEVEL_TEXT = ("Lean theorems for all metrics: Python round is within 1/2; _nudge_into_range is in range or unchanged-and-far, never moves by more "
